@@ -77,6 +77,8 @@ def generate(rng, tier):
                         word=rword(rng), ext=rng.choice(['mat', 'json'])))
     for _ in range(n // 2):
         out.append(dict(kind='meadows_file', seed=rng.randrange(10 ** 9), filetype=rng.choice(['mat1', 'matn', 'json'])))
+    for _ in range(3):      # always present: a json file with a later task that lists the same stimuli in another order (C20-m7)
+        out.append(dict(kind='meadows_file', seed=rng.randrange(10 ** 9), filetype='json', force_reorder=True))
     for _ in range(n // 4):
         out.append(dict(kind='epochs', seed=rng.randrange(10 ** 9)))
     for _ in range(n // 4):
@@ -205,13 +207,14 @@ def run_meadows_file(c):
             want = dict(utvs=utvs.tolist(), participants=names, tasks=['arrangement1'] * k, tidx=None)
         else:
             pname = f'happy-{pets[rs.randint(len(pets))]}'
-            k = rs.randint(1, 4)
+            forced = bool(c.get('force_reorder'))
+            k = rs.randint(2, 4) if forced else rs.randint(1, 4)
             utvs = rs.randint(1, 99, size=(k, m)) / 8.0
             tasks = []
             tnames = []
             # a later arrangement task may list the same stimuli in another order (seeded change C20-m7): the library skips such a
             # task; loading it with its values re-aligned to the labels would be right as well, values under wrong labels are not
-            reo = int(rs.randint(1, k)) if (k >= 2 and rs.rand() < 0.5) else None
+            reo = int(rs.randint(1, k)) if (k >= 2 and (forced or rs.rand() < 0.5)) else None
             perm = rs.permutation(n)
             while reo is not None and list(perm) == list(range(n)):
                 perm = rs.permutation(n)
